@@ -80,6 +80,8 @@ class Calls(Exec):
                 return [(st, self.spec_def(st, w[1], args, node))]
             if k == 'opaque':
                 raise Unsupported('call of an opaque function value', node)
+            if k == 'external':
+                return self.call_external(st, w[1], args, kwargs, node)
         if isinstance(fv, VClass):
             return self.construct(st, fv, args, kwargs, node)
         if isinstance(fv, VNone):
@@ -682,8 +684,57 @@ class Calls(Exec):
             st.assume(cnd)
         return v
 
+    # ------------------------------------------------------------ externals (trusted contracts)
+    def call_external(self, st, name, args, kwargs, node):
+        """standard-library calls with hand-written contracts; each one is listed in the evidence as
+        trusted and cross-checked against CPython by the self-test"""
+        if name == 're.sub' and len(args) == 3 and isinstance(args[0], VStr) and args[0].lit == '^[*+>^]+' \
+                and isinstance(args[1], VStr) and args[1].lit == '':
+            self.note("external re.sub(r'^[*+>^]+', '', s): trusted contract: the result is the suffix of s that starts "
+                      "at the first character not in *+>^ (cross-checked against CPython by the self-test)")
+            s0 = self.as_str(args[2])
+            arr, off, n = str_parts(s0)
+            k = fresh_int('strip')
+            st.assume(AND(k >= 0, k <= n))
+            q = fresh_int('qk')
+            isop = lambda c: z3.Or(c == ord('*'), c == ord('+'), c == ord('>'), c == ord('^'))
+            st.assume(z3.ForAll([q], z3.Implies(z3.And(q >= off, q < off + k), isop(z3.Select(arr, q)))))
+            st.assume(z3.Or(k == n, z3.Not(isop(z3.Select(arr, off + k)))))
+            return [(st, VStr(arr, simp(off + k), simp(n - k)))]
+        raise Unsupported('external call %s' % name, node)
+
     # ------------------------------------------------------------ builtins
+    def force_all(self, st, args):
+        outs = [(st, [])]
+        for a in args:
+            nxt = []
+            for s, acc in outs:
+                for s2, v in (self.force(s, a) if not s.spec else [(s, a)]):
+                    nxt.append((s2, acc + [v]))
+            outs = nxt
+        return outs
+
     def call_builtin(self, st, name, args, kwargs, node):
+        if name in ('max', 'min', 'abs', 'chr') and any(isinstance(a, VU) for a in args) and not st.spec:
+            res = []
+            for s2, vs in self.force_all(st, args):
+                try:
+                    res.extend(self.call_builtin(s2, name, vs, kwargs, node))
+                except PathDead:
+                    pass
+            return res
+
+        if st.spec and name in ('max', 'min', 'abs'):
+            # in a specification the None alternative of an optional number is excluded by the guard
+            # the clause is written under (`x if p is None else min(..., p)`)
+            def strip(v):
+                if isinstance(v, VU):
+                    nn = [a for _, a in v.alts if not isinstance(a, VNone)]
+                    if len(nn) == 1:
+                        return nn[0]
+                return v
+            args = [strip(a) for a in args]
+
         def one(v):
             return [(st, v)]
         if name == 'len':
@@ -725,6 +776,9 @@ class Calls(Exec):
             vals = args
             if len(args) == 1 and isinstance(args[0], VTuple):
                 vals = args[0].items
+            if any(isinstance(v, VNone) for v in vals):
+                self.prove(st, FALSE, 'aorte', node, 'TypeError: %s() with None' % name)
+                raise PathDead()
             if not all(isinstance(v, (VInt, VBool)) for v in vals):
                 raise Unsupported('%s on non-int' % name, node)
             t = self.num(vals[0])
